@@ -693,6 +693,9 @@ pub fn gen_history(r: &mut Rng, files: &[(String, String)], nsteps: usize, edita
             undo.push((fi, text.clone()));
             cur[fi].1 = String::new();
             edits.push(Edit { file: name, range: None, text: String::new(), kind: "empty-file".into() });
+            if r.chance(1, 3) {
+                edits.push(reload_edit(r));
+            }
             continue;
         }
         if k < 13 && !undo.is_empty() {
@@ -754,6 +757,45 @@ pub fn gen_history(r: &mut Rng, files: &[(String, String)], nsteps: usize, edita
     edits
 }
 
+/// configuration rewrites (vhdl_ls.toml changed + reload) that histories interleave with the text edits; the directive
+/// is the text of the edit (kind "reload-config", empty file name)
+pub const RELOADS: &[&str] = &[
+    "standard = \"2019\"", "standard = \"1993\"", "standard = \"2008\"", "preferred_case = \"upper\"", "lint-table", "extra-lib",
+    "standard = \"2019\"\npreferred_case = \"lower\"", "drop-last-file", "standard = \"1993\"\nlint-table",
+];
+
+pub fn reload_edit(r: &mut Rng) -> Edit {
+    Edit { file: String::new(), range: None, text: r.pick(RELOADS).to_string(), kind: "reload-config".into() }
+}
+
+/// vhdl_ls.toml of a case after a reload directive (None = the initial configuration)
+pub fn case_toml(case: &Case, directive: Option<&str>) -> String {
+    let d = directive.unwrap_or("");
+    let mut toml = String::new();
+    for line in d.lines() {
+        if line.starts_with("standard") || line.starts_with("preferred_case") {
+            toml.push_str(line);
+            toml.push('\n');
+        }
+    }
+    toml.push_str("[libraries]\n");
+    let nlibs = case.libs.len();
+    for (k, (lib, files)) in case.libs.iter().enumerate() {
+        let mut fs: Vec<&String> = files.iter().collect();
+        if d.contains("drop-last-file") && k + 1 == nlibs && fs.len() > 1 {
+            fs.pop();
+        }
+        toml.push_str(&format!("{}.files = [{}]\n", lib, fs.iter().map(|f| format!("'{}'", f)).collect::<Vec<_>>().join(", ")));
+    }
+    if d.contains("extra-lib") {
+        toml.push_str("extra_lib.files = []\n");
+    }
+    if d.contains("lint-table") {
+        toml.push_str("\n[lint]\nunused = 'error'\nduplicate = false\n");
+    }
+    toml
+}
+
 fn push_edit(edits: &mut Vec<Edit>, cur: &mut [(String, String)], fi: usize, ed: &Ed, r: &mut Rng) {
     let text = cur[fi].1.clone();
     let new = apply(&text, ed);
@@ -767,6 +809,11 @@ fn push_edit(edits: &mut Vec<Edit>, cur: &mut [(String, String)], fi: usize, ed:
     };
     cur[fi].1 = new;
     edits.push(e);
+    // an unsaved edit that makes the buffer shorter than the file on disk, then a configuration reload
+    let shrinks = ed.end - ed.start > ed.text.len() + 20;
+    if (shrinks && r.chance(1, 3)) || r.chance(1, 50) {
+        edits.push(reload_edit(r));
+    }
 }
 
 /// A case of the exploration: family by index, history length by tier.
@@ -1505,6 +1552,145 @@ pub fn cycle_cases(seed: u64) -> Vec<Case> {
         }
         let stmts: Vec<String> = objs.iter().map(|(o, ty)| u.replace("vo_t", ty).replace('@', o)).collect();
         out.push(mk(format!("cy{seed}-all-{k}"), &all_decls, objs.clone(), stmts));
+    }
+    out
+}
+
+// ------------------------------------------------------------------------------------------------
+// cross-unit combinations: constructs that decorate / extend / refer into an entity of ANOTHER design unit
+// ------------------------------------------------------------------------------------------------
+pub const XUNIT_PKG: &str = "package x_gen is
+  generic (g : integer := 0);
+  constant gc : integer := g;
+end package;
+
+package x_pkg is
+  type x_prot is protected
+    procedure m;
+  end protected;
+  type x_ft is file of integer;
+  type x_typ is (x_lit, x_lit2);
+  subtype x_sub is integer range 0 to 3;
+  type x_inc;
+  type x_phy is range 0 to 10 units x_unit; end units;
+  type x_rec is record
+    el : integer;
+  end record;
+  signal x_sig : bit;
+  constant x_con : integer := 1;
+  constant x_def : integer;
+  shared variable x_var : x_prot;
+  file x_fil : x_ft;
+  function x_fun(a : integer) return integer;
+  procedure x_pro(a : integer);
+  component x_comp is
+    port (a : in bit := '0');
+  end component;
+  attribute x_att : boolean;
+  attribute x_att of x_con : constant is true;
+  alias x_al is x_sig;
+  alias x_alt is x_typ;
+  package x_inst is new work.x_gen generic map (g => 1);
+end package x_pkg;
+
+package body x_pkg is
+  type x_prot is protected body
+    procedure m is begin null; end;
+  end protected body;
+  constant x_def : integer := 2;
+  function x_fun(a : integer) return integer is begin return a; end;
+  procedure x_pro(a : integer) is begin null; end;
+end package body x_pkg;
+
+entity x_leaf is
+  port (a : in bit := '0');
+end entity;
+
+architecture la of x_leaf is
+begin
+end architecture;
+";
+
+/// (name in x_pkg / library unit, its entity class)
+pub const XUNIT_TARGETS: &[(&str, &str)] = &[
+    ("x_sig", "signal"), ("x_con", "constant"), ("x_def", "constant"), ("x_var", "variable"), ("x_fil", "file"), ("x_typ", "type"), ("x_sub", "subtype"),
+    ("x_inc", "type"), ("x_prot", "type"), ("x_rec", "type"), ("x_phy", "type"), ("x_unit", "units"), ("x_lit", "literal"), ("x_fun", "function"),
+    ("x_pro", "procedure"), ("x_comp", "component"), ("x_att", "signal"), ("x_al", "signal"), ("x_alt", "type"), ("x_inst", "package"),
+];
+
+pub const XUNIT_TEMPLATES: &[&str] = &[
+    "  attribute keep of @ : {c} is true;",
+    "  attribute keep of @ : {o} is true;",
+    "  attribute x_att of @ : {c} is true;",
+    "  attribute keep of @, @ : {c} is true;",
+    "  attribute keep of all : {c} is true;",
+    "  attribute keep of others : {c} is true;",
+    "  attribute keep of @[integer return integer] : {c} is true;",
+    "  for all : @ use entity work.x_leaf;",
+    "  for xi : @ use entity lib.x_leaf(la);",
+    "  alias xa2 is @; alias xa3 is xa2; attribute keep of xa3 : {c} is true;",
+    "  alias xa4 is @[integer return integer]; attribute keep of xa4 : {c} is true;",
+    "  constant @ : integer := 5;",
+    "  type @ is protected body end protected body;",
+    "  function @(a : integer) return integer is begin return a; end;",
+    "  procedure @(a : integer) is begin null; end;",
+    "  type @ is (xa, xb);",
+    "  type @ is record el : integer; end record;",
+    "  use @.all;",
+    "  package xinst is new @ generic map (g => 2);",
+    "  signal xs : bit := << signal .x_user.@ : bit >>;",
+    "  disconnect @ : bit after 1 ns;",
+    "  subtype xst is @; signal xs2 : @;",
+    "  constant xc : boolean := @'keep;",
+    "  constant xc2 : boolean := @'x_att;",
+    "  constant xc3 : integer := @'length + @.el;",
+];
+
+fn xunit_use_file(site: &str) -> (String, usize) {
+    let mut t = String::from("library lib;\nuse lib.x_pkg.all;\n\nentity x_user is\nend entity;\n\narchitecture ua of x_user is\n  attribute keep : boolean;\n");
+    let line = t.matches('\n').count();
+    t.push_str(site);
+    t.push_str("\nbegin\n  xi : x_comp;\nend architecture ua;\n");
+    (t, line)
+}
+
+/// One case per target: every template through the access paths (use-visible name, selected name, local alias,
+/// alias of alias); quick = local alias + one rotating other path, thorough = all four.
+pub fn xunit_cases(seed: u64, all_paths: bool) -> Vec<Case> {
+    let classes: Vec<&str> = vec!["signal", "constant", "variable", "file", "type", "subtype", "units", "literal", "function", "procedure", "component", "package", "entity", "label"];
+    let mut out = vec![];
+    for (ti, (name, class)) in XUNIT_TARGETS.iter().enumerate() {
+        let blank = "  -- site\n  -- site".to_string();
+        let (text, line) = xunit_use_file(&blank);
+        let mut edits = vec![];
+        let mut nl = 2u32;
+        for (k, tpl) in XUNIT_TEMPLATES.iter().enumerate() {
+            let other = classes[(k + ti + seed as usize) % classes.len()];
+            for path in 0..4usize {
+                if !all_paths && path != 2 && path != (k + ti + seed as usize) % 4 {
+                    continue;
+                }
+                let (pre, at) = match path {
+                    0 => ("  -- use-visible".to_string(), name.to_string()),
+                    1 => ("  -- selected".to_string(), format!("lib.x_pkg.{name}")),
+                    2 => (format!("  alias xal is lib.x_pkg.{name};"), "xal".to_string()),
+                    _ => (format!("  alias xal0 is {name}; alias xal is xal0;"), "xal".to_string()),
+                };
+                let body = tpl.replace('@', &at).replace("{c}", class).replace("{o}", other);
+                let new = format!("{pre}\n{body}");
+                edits.push(Edit { file: "x_use.vhd".into(), range: Some([line as u32, 0, line as u32 + nl - 1, 4294967295]), text: new.clone(), kind: "cross-unit".into() });
+                nl = new.matches('\n').count() as u32 + 1;
+            }
+        }
+        out.push(Case {
+            id: format!("xu{seed}-{name}"),
+            family: "xunit".into(),
+            std_mode: "std".into(),
+            libs: vec![("lib".to_string(), vec!["x_pkg.vhd".into(), "x_use.vhd".into()])],
+            files: vec![("x_pkg.vhd".to_string(), XUNIT_PKG.to_string()), ("x_use.vhd".to_string(), text)],
+            edits,
+            cursors: vec![],
+        });
     }
     out
 }
